@@ -251,6 +251,40 @@ impl Gossip {
     }
 }
 
+#[cfg(p2panda_p2panda_verif)]
+impl Gossip {
+    /// Verification hook: identity and value of the reference counter stored in the senders map
+    /// for this topic. `Err(())` if the map is write-locked, `Ok(None)` if there is no entry.
+    #[allow(clippy::result_unit_err)]
+    pub fn verif_senders_counter(&self, topic: Topic) -> Result<Option<(usize, usize)>, ()> {
+        let senders = self.senders.try_read().map_err(|_| ())?;
+        Ok(senders.get(&topic).map(|(_, _, guard)| guard.verif_counter()))
+    }
+}
+
+#[cfg(p2panda_p2panda_verif)]
+impl GossipHandle {
+    /// Verification hook: identity and value of the reference counter behind this handle.
+    pub fn verif_counter(&self) -> (usize, usize) {
+        self._guard.verif_counter()
+    }
+}
+
+#[cfg(p2panda_p2panda_verif)]
+impl GossipSubscription {
+    /// Verification hook: identity and value of the reference counter behind this subscription.
+    pub fn verif_counter(&self) -> (usize, usize) {
+        self._guard.verif_counter()
+    }
+}
+
+#[cfg(p2panda_p2panda_verif)]
+impl TopicDropGuard {
+    fn verif_counter(&self) -> (usize, usize) {
+        (Arc::as_ptr(&self.counter) as usize, self.counter())
+    }
+}
+
 impl Drop for Inner {
     fn drop(&mut self) {
         trace!(
@@ -503,6 +537,9 @@ impl Drop for TopicDropGuard {
         let previous_counter = self
             .counter
             .fetch_sub(1, std::sync::atomic::Ordering::SeqCst);
+
+        #[cfg(p2panda_p2panda_verif)]
+        p2panda_core::verif::point_blocking("gossip.guard.drop.after_fetch_sub");
 
         trace!(
             topic = self.topic.fmt_short(),
